@@ -577,7 +577,53 @@ def rule_main_component_filled(ctx):
     ctx.check(R, "ProgramArchive::new/filled-expression-is-stored", stored, "the expression that was filled is the one stored as initial_template_call", site(PA, fn))
 
 
+def rule_directory_once(ctx, R="C01.19"):
+    ctx.rule(R, "the walk over a directory named on the command line ends: a directory that is reached again through a link is not listed again (the set of canonical paths of the directories listed so far guards the descent), or links are not followed at all")
+    """the walk over a directory named on the command line is finite only if a directory that is reached again through a
+    link is not listed again: two links that point upwards (`ln -s . d/self; ln -s .. d/sub/up`) otherwise give 2^40
+    different paths before the operating system's link limit ends each of them"""
+    from astlib import inline_helpers
+
+    INC_ = "parser/src/include_logic.rs"
+    fn0 = find_fn(INC_, "add_files")
+    if fn0 is None:
+        return ctx.missing(R, "FileStack::add_files")
+    fn = inline_helpers(fn0, INC_)
+    rec = [c for c in walk(fn["body"]) if c["k"] == "MethodCall" and c["method"] == "add_files"] + [c for c in walk(fn["body"]) if c["k"] == "Call" and c["func"]["k"] == "Path" and last(c["func"]["path"]) == "add_files"]
+    if not rec:
+        # no recursion: a work list - the same question is asked of the place where directories are pushed onto it
+        rec = [c for c in walk(fn["body"]) if c["k"] == "MethodCall" and c["method"] in ("push", "push_back", "extend") and any(x["k"] in ("Call", "MethodCall") and "read_dir" in render(x) for x in walk(fn["body"]))][:0]
+        if not rec:
+            return ctx.missing(R, "add_files/descent", "the place where add_files descends into a directory was not found")
+    sets_ = set()
+    from astlib import all_items
+
+    for _p, it in all_items(facts.ast().get(INC_) or []):
+        if it.get("k") == "StructDef" and it.get("name") == "FileStack":
+            for f_ in it.get("fields", []):
+                if re.match(r"^(std::collections::)?(HashSet|BTreeSet)<", f_["ty"].replace(" ", "")):
+                    sets_.add(f_["name"])
+    for c in rec:
+        conds = conditions_to(fn["body"], c) or []
+        le = let_env(fn["body"], c)
+        guard = None
+        for f in conds:
+            if f[0] not in ("if", "iflet", "arm", "notall"):
+                continue
+            nodes = [f[1]] if f[0] in ("if",) else ([f[2]] if f[0] in ("iflet",) else ([f[1]] if f[0] == "arm" else [g[1] for g in f[1] if g[0] == "if"]))
+            for nd in nodes:
+                for m in walk(nd):
+                    if m["k"] == "MethodCall" and m["method"] in ("insert", "contains") and render(strip(m["recv"])).replace("&mut ", "").replace("&", "") in ["self.%s" % x for x in sets_]:
+                        txt = render(nd) + " ".join(render(v_) for k_, v_ in le.items())
+                        if "canonicalize" in txt:
+                            guard = "`%s` on the resolved path" % render(m)[:60]
+                    if m["k"] == "MethodCall" and m["method"] == "is_symlink":
+                        guard = guard or "links are not followed (`%s`)" % render(m)[:40]
+        ctx.check(R, "add_files/each-directory-listed-once", guard is not None, guard or "add_files descends into every directory it meets, also one it has listed before (reached again through a link): with two links that point upwards the walk does not end in practice (2^40 paths)", site(INC_, c))
+
+
 def run(ctx):
+    rule_directory_once(ctx)
     rule_ledger(ctx)
     ctx.include("C01.3", "the time box is checked on every propagation iteration and the cut only stops the loop (shared with C20.1)", c20.rule_cut)
     rule_terminals(ctx)
